@@ -87,9 +87,20 @@ pub fn check(p: &Pos, rep: &mut Report, rng: &mut StdRng) {
     // validity after every pseudo-legal move
     for (u, valid, next_in_check, packaged) in after {
         rep.eval();
-        let m = match Mv::from_uci(&u) { Some(m) if ref_pseudo.contains(&m) => m, _ => { rep.inconclusive("pseudo-legal move unknown to the reference (C01 matter)"); continue; } };
+        // A move the reference generator does not know (whether it may be generated at all is C01's
+        // matter) is still a position "reached by playing a pseudo-legal move": it is applied
+        // physically and the validity / check reports are held against the rules.
+        let (m, known) = match Mv::from_uci(&u) {
+            Some(m) if ref_pseudo.contains(&m) => (m, true),
+            Some(m) if p.b[m.from as usize] != 0 && (p.b[m.from as usize] > 0) == white && (p.b[m.to as usize] == 0 || (p.b[m.to as usize] > 0) != white) && p.b[m.to as usize].abs() != K => {
+                rep.count("pseudo_legal_moves_unknown_to_the_reference");
+                (m, false)
+            }
+            _ => { rep.inconclusive("pseudo-legal move unknown to the reference and not applicable physically (C01 matter)"); continue; }
+        };
         let n = p.make(m);
         let ref_valid = !n.in_check(white);
+        let packaged = if known { packaged } else { ref_valid };
         if valid != ref_valid {
             rep.violation(&format!("is_valid:{}", if ref_valid { "rejects-legal" } else { "accepts-illegal" }), format!("after {} in {}: is_valid()={} rules {}", u, fen, valid, ref_valid), json!({"kind":"c05","fen":fen,"move":u}));
         }
@@ -102,6 +113,45 @@ pub fn check(p: &Pos, rep: &mut Report, rng: &mut StdRng) {
             rep.violation(&format!("is_current_in_check-after-move:{}", if ref_next { "missed" } else { "phantom" }), format!("after {} in {}: is_current_in_check()={} rules {}", u, fen, next_in_check, ref_next), json!({"kind":"c05","fen":fen,"move":u}));
         }
         if ref_next { rep.count("checks_given"); }
+    }
+    // consumer level: the SAN writer's suffix is the board's public mate / check / stalemate report
+    // for the position after a move: '#' exactly for checkmate, '+' exactly for check that is not
+    // mate, nothing otherwise (a stalemating move in particular carries no suffix)
+    let mut sfx: Vec<(String, &'static str)> = Vec::new();
+    for m in p.legal_moves() {
+        let n = p.make(m);
+        let gives_check = n.in_check(n.wtm);
+        let moveless = n.legal_moves().is_empty();
+        if gives_check || moveless || rng.gen_range(0..8) == 0 {
+            sfx.push((m.uci(), if gives_check && moveless { "#" } else if gives_check { "+" } else if moveless { "stalemate" } else { "" }));
+        }
+    }
+    if !sfx.is_empty() {
+        let r = guarded_mut(|| {
+            let mut bb = load(p)?;
+            Ok::<_, String>(sfx.iter().map(|(u, _)| bb.uci_to_pgn(u).map_err(|e| format!("{:?}", e))).collect::<Vec<_>>())
+        });
+        match r {
+            Err(pm) => rep.violation(&format!("san-suffix-{}", panic_sig(&pm)), format!("uci_to_pgn panicked in {}: {}", fen, pm), replay.clone()),
+            Ok(Err(e)) => rep.violation("load-failed", e, replay.clone()),
+            Ok(Ok(v)) => {
+                for ((u, want), got) in sfx.iter().zip(v) {
+                    rep.eval();
+                    rep.count(&format!("san_suffix_{}", match *want { "#" => "mate", "+" => "check", "stalemate" => "stalemate", _ => "none" }));
+                    match got {
+                        Err(e) => rep.violation("san-suffix-legal-move-refused", format!("uci_to_pgn({}) in {}: {}", u, fen, e), json!({"kind":"c05","fen":fen,"move":u})),
+                        Ok(san) => {
+                            let got_sfx = if san.ends_with('#') { "#" } else if san.ends_with('+') { "+" } else { "" };
+                            let want_sfx = if *want == "stalemate" { "" } else { *want };
+                            if got_sfx != want_sfx {
+                                rep.violation(&format!("san-suffix:{}-written-as-{}", match *want { "#" => "mate", "+" => "check", "stalemate" => "stalemate", _ => "quiet" }, match got_sfx { "#" => "mate", "+" => "check", _ => "quiet" }), format!("uci_to_pgn({}) = {} in {}", u, san, fen), json!({"kind":"c05","fen":fen,"move":u}));
+                            }
+                            if *want == "stalemate" || *want == "#" { rep.distinct_hash(monlib::mix(p.key().h64(), monlib::fnv(u.as_bytes()))); }
+                        }
+                    }
+                }
+            }
+        }
     }
     if rep.samples.len() < 6 && (ref_empty || (ref_cur && rng.gen_range(0..40) == 0)) {
         rep.sample(json!({"fen": fen, "in_check": ref_cur, "no_legal_moves": ref_empty, "checkers": kinds}));
